@@ -130,6 +130,14 @@ def gen_tree(rng, root):
                 os.symlink(src, os.path.join(d, m["name"] + ".bloch"))
             except OSError:
                 pass
+    # a second name for a module inside its own package directory (symlink): one file, two spellings
+    if mods and rng.random() < 0.3:
+        m = rng.choice(mods)
+        d = os.path.join(roots[m["places"][0]], *m["pkg"])
+        try:
+            os.symlink(m["name"] + ".bloch", os.path.join(d, "Alias%s.bloch" % m["id"]))
+        except OSError:
+            pass
     # optional implicit root object
     if rng.random() < 0.4:
         where = rng.choice(["lib1", "lib2", "proj"])
@@ -256,7 +264,8 @@ def check_one(ctx, binary, index):
         cmd = [binary, "load"]
         for s in cfg["search"]:
             cmd += ["-I", s]
-        cmd.append(cfg["entry"])
+        # the entry file is named absolutely or relative to the working directory
+        cmd.append(cfg["entry"] if index % 2 else os.path.relpath(cfg["entry"], cfg["cwd"]))
         r = core.run(cmd, cwd=cfg["cwd"], timeout=60)
         nimports = sum(len(m["mod"]["imports"]) for m in cfg["files"].values())
         descr = dict(index=index, expected=list(exp), search=[os.path.basename(s) for s in cfg["search"]],
